@@ -103,7 +103,9 @@ theorem expand_cases (c : Ctx) (st st1 : St) (k : Key) (ref : Option Id) (implie
         new = [Task.add (.el i.input) (some i.file) false, Task.add (.el i.output) (some i.file) false] ++
           postTasks i ref) ∨
     (i.kind = .ext ∧ ∃ f e, i.fld = some f ∧ f.extendee = some e ∧
-        ((st.isExcl (.el e) = true ∧ st1 = st.set k .excluded ∧ new = []) ∨
+        (((st.isExcl (.el e) = true ∨
+            (c.cfg.extendeeFirst = false ∧ st.isExcl (.el e) = false ∧ typeExcluded st f = true)) ∧
+           st1 = st.set k .excluded ∧ new = []) ∨
          (st.isExcl (.el e) = false ∧ st1 = st ∧
             new = [Task.add (.el e) (some i.file) implied, Task.extType k ref]))) := by
   unfold expand at h
@@ -133,11 +135,16 @@ theorem expand_cases (c : Ctx) (st st1 : St) (k : Key) (ref : Option Id) (implie
         split at h
         · rename_i hx
           cases h
-          exact Or.inr (Or.inr (Or.inr (Or.inr (Or.inr ⟨hk, f, e, hf, he, Or.inl ⟨hx, rfl, rfl⟩⟩))))
+          exact Or.inr (Or.inr (Or.inr (Or.inr (Or.inr ⟨hk, f, e, hf, he, Or.inl ⟨Or.inl hx, rfl, rfl⟩⟩))))
         · rename_i hx
-          cases h
           simp only [Bool.not_eq_true] at hx
-          exact Or.inr (Or.inr (Or.inr (Or.inr (Or.inr ⟨hk, f, e, hf, he, Or.inr ⟨hx, rfl, rfl⟩⟩))))
+          split at h
+          · rename_i hy
+            cases h
+            simp only [Bool.and_eq_true, Bool.not_eq_true'] at hy
+            exact Or.inr (Or.inr (Or.inr (Or.inr (Or.inr ⟨hk, f, e, hf, he, Or.inl ⟨Or.inr ⟨hy.1, hx, hy.2⟩, rfl, rfl⟩⟩))))
+          · cases h
+            exact Or.inr (Or.inr (Or.inr (Or.inr (Or.inr ⟨hk, f, e, hf, he, Or.inr ⟨hx, rfl, rfl⟩⟩))))
 
 theorem step_add_cases (c : Ctx) (st st1 : St) (k : Key) (ref : Option Id) (implied : Bool)
     (new : List Task) (h : step c st (.add k ref implied) = .ok (st1, new)) :
@@ -1672,7 +1679,7 @@ theorem closure_keeps_includes (cfg : Cfg) (hcfg : cfg.svcMarksInput = false) (i
       rw [hj'] at hh
       simp only [] at hh
       leaves hh
-      rename_i hx _
+      rename_i hx _ _
       have hk := find_key _ _ _ hj
       rw [hk] at hh hx
       simp only [Bool.not_eq_true] at hx
